@@ -307,9 +307,11 @@ def withCache (st0 : GState) (nodes : List Node) : GState :=
     decided `delta`. `mj` is what `calculateNewNodeMetrics` journalled before. -/
 def scanAct (o : Oracle) (k : Nat) (dry : Bool) (cfg : GroupCfg) (st : GState) (g : PGroup) (pods : List Pod)
     (h : Hints) (nowMock nowReal : Int) (untainted tainted force : List Node) (mj : Journal) (delta : Int) : Eff ScanOut :=
-  -- force reaper: its error is only logged
+  -- force reaper: a not-in-group error ends the scan (and the controller); any other error is only logged
   let f := tryDelete o k g (forceCands dry pods force)
-  if delta < 0 then
+  if f.val.err = .notInGroup then
+    ⟨⟨0, .notInGroup, st, f.val.g, "force-notingroup"⟩, mj ++ f.j, f.k⟩
+  else if delta < 0 then
     let r := tryDelete o f.k f.val.g (reaperCands dry cfg pods nowMock tainted)
     if r.val.err = .notInGroup then
       ⟨⟨0, .notInGroup, st, r.val.g, "down-notingroup"⟩, mj ++ f.j ++ r.j, r.k⟩
